@@ -69,6 +69,18 @@ CLAIMED = {
         "JSON type) + correspondence of the generic verify and of _add_value with the model.",
    note="Bodies of the class-specific cross-field rules are not modelled (exercised by the oracle on the real code only); embedded signed objects are covered by C16/C08.",
    technique="Lean 4 proof (decision logic + kernel-decided obligation over the regenerated verify-chain table) + exhaustive cell correspondence", ref="6 C11"),
+ "C06": dict(
+   text="Lean theorems: acceptance by verify_uri implies a registered URI with equal scheme, path, params, query multimap, no fragment and equal "
+        "authority up to the native-loopback port rule (accept_means_registered), unclean/fragment/host-less values never verify; delivery: in "
+        "query and fragment mode the delivered string starts with the accepted URI and what follows the delimiter parses back to exactly the "
+        "issued parameters, encoded values contain none of & = # ? space (value_cannot_escape); form_post: the escaped form of ANY string "
+        "contains no < > \" ' and an HTML parser recovers the issued value (escape_has_no_markup, unescape_escape). Tie: endpoint-level "
+        "correspondence on component-wise mutated redirect URIs for a web and a native client, and on full responses in the three modes with "
+        "hostile state values; independent oracle with the RFC 3986 Appendix B split and html.parser.",
+   note="PARTIAL: urllib's unquote/urlparse/parse_qs are at the interface (their components are inputs of the model); agreement of urllib with the "
+        "RFC split on clean strings is checked per case by the oracle, not proved. post_logout_redirect_uri goes through the same verify_uri "
+        "but the end-session endpoint glue is not driven yet.",
+   technique="Lean 4 proof (decision logic over parsed components; codec lemmas for delivery and HTML escaping) + endpoint correspondence on mutated URIs", ref="6 C06"),
 }
 NOT_YET = {}
 ALL = [f"C{i:02d}" for i in range(1, 21)]
